@@ -6,7 +6,7 @@ from core import cq, fr, fl
 import leafgen as lg
 
 ID = 'C01'
-GEN = ['kernels', 'classes', 'thermal', 'functions']
+GEN = ['kernels', 'classes', 'thermal', 'functions', 'storage']
 PROPS = 'Props/C01.v'
 MODEL_VO = ['Model/Dev.v']
 EXTRA_MODEL_VO = ['Proofs/TransEval.v']
